@@ -14,7 +14,7 @@ ASSUMPTIONS = [
     "compatibility rules are exercised on concrete geometry pairs and hash strategies (no symbolic content needed)",
 ]
 BOUNDS = {
-    "quick": "Bloom geometries 1..13 bits and 63 bits/4 hashes; counting Bloom 2 and 3 cells; rule matrix over 3 geometries x 3 strategies x foreign types",
+    "quick": "Bloom geometries 1, 2, 3, 6, 7, 8, 11, 13, 16 and 63 bits; counting Bloom 2 and 3 cells; rule matrix over 3 geometries x 3 strategies x foreign types",
     "thorough": "adds 34-bit and 39-bit Bloom geometries, counting Bloom 6 cells",
     "outside": "larger geometries; mixing a counting with a plain Bloom filter (outside the claim)",
 }
@@ -97,8 +97,20 @@ def rules(ctx, cfg):
         a = cls(10, 0.05, hash_function=hf_same)
         a.add("x")
         snap = (list(a.bloom), a.elements_added)
-        for other in (cls(10, 0.1, hash_function=hf_same), cls(11, 0.05, hash_function=hf_same)):
+        others = [cls(10, 0.1, hash_function=hf_same), cls(11, 0.05, hash_function=hf_same)]
+        # every geometry on a small grid that differs from a's in bits or hashes - in particular same hashes and same byte
+        # length but a different number of bits, and same bits but a different number of hashes
+        seen = {(a.number_bits, a.number_hashes)}
+        for est in range(8, 13):
+            for p1000 in range(30, 80, 1):
+                o = cls(est, p1000 / 1000, hash_function=hf_same)
+                g = (o.number_bits, o.number_hashes)
+                if g not in seen and (o.number_hashes == a.number_hashes or o.number_bits == a.number_bits or o.bloom_length == a.bloom_length):
+                    seen.add(g)
+                    others.append(o)
+        for other in others:
             ctx.check(a.union(other) is None and a.intersection(other) is None and a.jaccard_index(other) is None, "rule-geometry-none")
+            ctx.check(other.union(a) is None and other.intersection(a) is None and other.jaccard_index(a) is None, "rule-geometry-none")
         other = cls(10, 0.05, hash_function=hf_other)
         ctx.check(a.union(other) is None and a.intersection(other) is None and a.jaccard_index(other) is None, "rule-different-hash")
         ok = cls(10, 0.05, hash_function=hf_same)
@@ -142,7 +154,7 @@ HARNESS = {"c13.bloom": bloom, "c13.cbf": cbf, "c13.rules": rules}
 
 def jobs(tier):
     js = [{"h": "c13.rules", "cfg": {}, "opts": {"no_witness": True}}]
-    for est, fpr in [(1, .9), (1, .5), (1, .3), (2, .3), (1, .05), (3, .2), (5, .3), (10, .05)] + ([(7, .1), (4, .01)] if tier == "thorough" else []):
+    for est, fpr in [(1, .9), (1, .5), (1, .3), (2, .3), (1, .05), (3, .28), (3, .2), (5, .3), (5, .22), (10, .05)] + ([(7, .1), (4, .01)] if tier == "thorough" else []):
         js.append({"h": "c13.bloom", "cfg": {"est": est, "fpr": fpr}, "opts": {"cost": est}})
     # every cell forks three ways in intersection() and again in jaccard_index(): 3 cells = 289 paths, 6 cells > 12 000
     for est, fpr in [(1, .5), (1, .3)] + ([(2, .3)] if tier == "thorough" else []):
